@@ -4,6 +4,7 @@ package rt
 
 import (
 	"crypto/sha256"
+	"encoding/base64"
 	"encoding/hex"
 	"encoding/json"
 	"fmt"
@@ -237,6 +238,16 @@ func (r *Report) Finish() int {
 	if r.Assume == nil {
 		ev["assumptions"] = []string{}
 	}
+	if Replay != nil {
+		for _, v := range r.Violations {
+			fmt.Printf("REPLAY reproduced: %s\n", v.Msg)
+		}
+		if len(r.Violations) == 0 {
+			fmt.Println("REPLAY: the recorded case does not fail on this tree")
+			return 0
+		}
+		return 1
+	}
 	dir := filepath.Join(Root(), "evidence")
 	_ = os.MkdirAll(dir, 0o755)
 	b, err := json.MarshalIndent(ev, "", " ")
@@ -270,7 +281,7 @@ func (r *Report) Finish() int {
 		if i >= 5 {
 			break
 		}
-		art := map[string]any{"property": r.Property, "msg": v.Msg, "replay": v.Replay}
+		art := map[string]any{"property": r.Property, "tier": string(r.Tier), "msg": v.Msg, "replay": v.Replay}
 		ab, _ := json.MarshalIndent(art, "", " ")
 		h := sha256.Sum256(ab)
 		p := filepath.Join(rdir, fmt.Sprintf("%s-%s.json", r.Property, hex.EncodeToString(h[:6])))
@@ -279,6 +290,59 @@ func (r *Report) Finish() int {
 		fmt.Printf("  %s\n", v.Msg)
 	}
 	return 1
+}
+
+// ---------------------------------------------------------------- replay
+
+// ReplayReq is set by `<check> --replay <file>`: only the named sub-run executes, only the recorded history.
+type ReplayReq struct {
+	Property string
+	Tier     Tier
+	Run      string  `json:"run"`
+	Ops      []uint8 `json:"-"`
+	Raw      map[string]any
+	Msg      string
+}
+
+var Replay *ReplayReq
+
+// LoadReplay parses a replay artefact written by Finish.
+func LoadReplay(path string) *ReplayReq {
+	b, err := os.ReadFile(path)
+	if err != nil {
+		HarnessError("replay: %v", err)
+	}
+	var art struct {
+		Property string         `json:"property"`
+		Tier     string         `json:"tier"`
+		Msg      string         `json:"msg"`
+		Replay   map[string]any `json:"replay"`
+	}
+	if err := json.Unmarshal(b, &art); err != nil {
+		HarnessError("replay: %v", err)
+	}
+	r := &ReplayReq{Property: art.Property, Tier: Tier(art.Tier), Raw: art.Replay, Msg: art.Msg}
+	if r.Tier == "" {
+		r.Tier = Quick
+	}
+	for _, k := range []string{"run", "universe", "scenario"} {
+		if v, ok := art.Replay[k].(string); ok {
+			r.Run = v
+		}
+	}
+	switch ops := art.Replay["ops"].(type) {
+	case string: // []uint8 is marshalled as base64
+		raw, err := base64.StdEncoding.DecodeString(ops)
+		if err != nil {
+			HarnessError("replay ops: %v", err)
+		}
+		r.Ops = raw
+	case []any:
+		for _, o := range ops {
+			r.Ops = append(r.Ops, uint8(o.(float64)))
+		}
+	}
+	return r
 }
 
 // HarnessError aborts with exit 2 (never a VIOLATION line).
